@@ -6,6 +6,14 @@ V = os.path.dirname(os.path.dirname(os.path.abspath(__file__)))
 
 CLAIMS = {
  # id: (category, text, note, technique, design_ref)
+ "C01": ("proof",
+         "Kani/CBMC proofs (complete over all words, addresses and register files) of the two primitives every breakpoint stop is "
+         "built from: Breakpoint::enable/disable arm and disarm exactly the requested address (shared with C02), and the TRAP_BRKPT "
+         "statements of apply_new_status report the breakpoint's own address: rip is rewound by exactly one byte and no other register "
+         "changes. Scope: these primitives only; that every arrival yields exactly one stop, in execution order, and that removed "
+         "breakpoints never stop again are relations between the debuggee's execution trace and waitpid events and are not covered.",
+         "ptrace read/write/getregs/setregs replaced by one-word / one-thread models (stubs); the HashMap thread lookup replaced by a recorder.",
+         "Kani proofs on the real crate and on statement fragments spliced from it", "2/C02+C01"),
  "C02": ("proof",
          "Kani/CBMC proofs, complete over all 2^64 words, addresses and saved bytes, of the real INT3 patch primitive "
          "Breakpoint::enable / Breakpoint::disable: exactly the breakpoint address is peeked and poked, only the low byte changes, "
@@ -110,6 +118,14 @@ CLAIMS = {
          "block, shadowing, location lists and frame selection are not covered.",
          "psABI Fig. 3.36 typed into the harness as oracle.",
          "Kani proofs on the real crate, full-domain symbolic inputs", "2/C19+C05"),
+ "C11": ("proof",
+         "Verus proof of the real Debugger::detach against a ghost protocol model: the threads are released with PTRACE_DETACH only "
+         "after every INT3 patch was removed and every hardware debug register was cleared, SIGCONT is sent only to a released "
+         "process, `detached` is latched exactly on success and a second call does nothing. Scope: the ordering inside detach; "
+         "quitting (kill and reap), restart and the exit code are system-call histories outside this family's reach.",
+         "disable_all_breakpoints / clear_all / ptrace::detach / kill are assumed contracts over ghost sets (HashMap iteration, system calls); "
+         "errors of the two clean-up calls are ignored by the code and not modelled.",
+         "Verus modular proof with ghost protocol state on the extracted real function", "8.4/C11"),
  "C12": ("proof",
          "Verus proof (any batch of queued events, any earlier history) of the real DebugSession::drain_events against a ghost record "
          "of the events put on the wire: nothing is sent once `terminated` is latched; `terminated` is sent at most once and is the "
@@ -132,10 +148,8 @@ CLAIMS = {
 }
 
 NA = {
- "C01": "stops are a relation between another process's execution trace and waitpid events; only the INT3 patch primitive is contractable and is proved under C02",
  "C03": "step semantics are defined relative to the debuggee's real instruction trace and call depth; no function on the path has a postcondition expressible without the debuggee's execution semantics",
  "C09": "all-stop / exactly-once over thread interleavings is a kernel scheduling property; Kani has no concurrency, Verus would need permission types threaded through unchangeable code, and per-thread state lives in a std HashMap (out of CBMC's reach)",
- "C11": "statements about the process table, PTRACE_DETACH, SIGKILL/reaping and process re-creation: every step is a system call",
  "C17": "PathSearchIndex is std HashMap entry API + string_interner + str::split behind a global Mutex: in Verus every step would be an assumed contract, a rewrite would be a model, and a bounded Kani probe did not terminate (6 min / 2.8 GB)",
  "C20": "decoding of tokio-internal layouts through DQE evaluation on a live process; nothing algorithmic of its own to put under contract",
 }
